@@ -23,6 +23,12 @@ QP = "nitro::lang::quaint_ptr"
 OPT = "nitro::lang::optional"
 
 
+def _scalar(t):
+    """arithmetic / pointer payloads have no constructors to choose between"""
+    t = t.replace("const ", "").strip()
+    return t in ("bool", "int", "unsigned int", "long", "unsigned long", "char", "double", "float", "short") or t.endswith("*")
+
+
 def run(ctx):
     prog = ctx.prog
     ctx.rule("R18.1", "type-level: quaint_ptr move-only on a private unique_ptr<void,function>; optional assignment/deref types")
@@ -127,6 +133,41 @@ def run(ctx):
             ctx.check("nullptr_t" not in pt and "optional" not in pt, "R18.8", wv[0], "value-engages:" + text,
                       "`%s` runs %s: nullptr, a legitimate value of the payload type, no longer yields an engaged optional holding it - storing a value empties the target"
                       % (text, g.id[:110]), (wv[0], ln), why_ok=short(g.qual) + "(" + pt + ")")
+    # ---- R18.10: a copy of an optional builds its payload from the source's value seen as CONST (`*other` on a const optional yields
+    # const T&; `*other.data_` - unique_ptr's operator* - yields a mutable T&, and `new T(arg)` then prefers T(T&) or a greedy
+    # template<class U> T(U&&) over T's copy constructor: the "copy" is whatever that constructor makes of the source)
+    ctx.rule("R18.10", "copy-reads-const-source: in every instantiation of optional's copy constructor / copy assignment the payload is created from a const lvalue of the payload type")
+    ncp = 0
+    for g in sorted(prog.fns.values(), key=lambda h: h.id):
+        if g.cls is None or not g.cls.startswith("nitro::lang::optional<") or g.is_pattern or not g.has_cfg or not (g.flags.get("copy_ctor") or g.flags.get("copy_assign")):
+            continue
+        for bid, i, e in g.all_elems():
+            x = e.get("expr")
+            if not isinstance(x, dict):
+                continue
+            for n in walk(x):
+                if not isinstance(n, dict):
+                    continue
+                created = None
+                if n.get("k") == "call" and (n.get("name") or "") in ("std::make_unique", "std::make_shared") and len(n.get("args", [])) == 1:
+                    created = n["args"][0]
+                elif n.get("k") == "new" and len(n.get("args", []) or []) == 1:
+                    created = n["args"][0]
+                elif n.get("k") == "new" and isinstance(n.get("init"), dict) and len(n["init"].get("args", []) or []) == 1:
+                    created = n["init"]["args"][0]
+                if created is None:
+                    continue
+                a = ir.unwrap(created)
+                t = (a.get("type") or "") if isinstance(a, dict) else ""
+                ncp += 1
+                is_const = t.startswith("const ") or " const" in t or bool(isinstance(a, dict) and a.get("const"))
+                pointer_payload = t.endswith("*") and not t.endswith("* const") and "*const" not in t
+                if pointer_payload:
+                    is_const = " *const" in t or t.endswith("const") or is_const
+                ctx.check(is_const or _scalar(t), "R18.10", g, "copy-reads-const-source:%s" % fmt(a)[:40],
+                          "%s creates the copy's payload from `%s` of type `%s` - a mutable lvalue: for a payload type with T(T&) or a converting template constructor that one is "
+                          "selected instead of the copy constructor, the copy is not a copy" % (short(g.qual), fmt(a), t), (g, e.get("ln")), why_ok=t)
+    ctx.need("R18.10", "payload creations in optional's copy operations", ncp, 2)
     # ---- R18.9: reading an empty optional raises - and the exception can leave
     ctx.rule("R18.9", "no member of optional / quaint_ptr is declared noexcept and reaches a raise (`*empty` has to raise an exception the caller can catch, not end in std::terminate); no catch handler lets one vanish")
     from .common import rule_noexcept, rule_handlers
